@@ -112,7 +112,7 @@ def c01(tier):
     exe = build('debug')
     wd = scratch('c01')
     progs = pool.corpus() + pool.random_programs(tier_sizes(tier, 300, 8000), size=tier_sizes(tier, 30, 45)) + \
-        pool.construct_family(pairs=(tier == 'thorough'), limit=tier_sizes(tier, 400, None)) + pool.sandwich_programs()
+        pool.construct_family(pairs=(tier == 'thorough'), limit=tier_sizes(tier, 400, None)) + pool.sandwich_programs() + pool.let_slot_programs()
     # the real command line (exit status, stderr) for a sample, and always for the edge programs and for every construct placed as the last statement of the program
     outs, vs = judge_programs(chk, exe, progs, wd, 'c01', cli_sample=tier_sizes(tier, 60, 600),
                               cli_force=lambda n: n.startswith('edge:') or '/top_last/' in n or n.startswith('sandwich:if/two/'))
@@ -314,7 +314,7 @@ def c12(tier):
                 'while-once) up to %d statements; each is placed at top level, in a top-level block, in a function body and in a method body, with and without global x, y '
                 '(thorough: all 8 placements up to length %d, one placement round-robin beyond; quick: 8 placements to length 2, 1-4 at length 3, two placements for every length-4 sequence in which a block-local let meets another mention of the same name and for every length-5 sequence with two sibling blocks sharing a name or with a copy let x = x that is changed inside its block and read after it), written literals numbered; TLC runs the README semantics FMLSource on the AST (scope '
                 'stack, LeaveRestores and CallIsolated checked in every state) and the real pipeline must print the same values and stop at the same point. '
-                'Plus seeded frames with 9-14 blocks (siblings and nested) whose variables have names that are textual extensions of one another (x, x1, x10, ...), every block printing every visible name. '
+                'Plus seeded frames with 9-14 blocks (siblings and nested) whose variables have names that are textual extensions of one another (x, x1, x10, ...), every block printing every visible name; and a let written directly in each of 17 operand slots (array size, argument, receiver, operand, index, condition, field initializer, parent, ...) with its variable used afterwards, in every frame kind. '
                 'distinct_nontrivial = distinct programs judged inside the fragment.' % (maxlen, 4 if tier == 'thorough' else 3))
     exe = build('debug')
     wd = scratch('c12')
@@ -351,6 +351,10 @@ def c12(tier):
         ast = many_scopes_program(seed() * 100003 + k)
         progs.append({'name': 'manyscopes:%d' % (seed() * 100003 + k), 'text': unparse(ast), 'ast': strip_marks(ast)})
     chk.notes['many_scopes_programs'] = nmany
+    # a let written directly in an operand slot declares its variable in the scope the expression stands in
+    ls = pool.let_slot_programs()
+    progs += ls
+    chk.notes['let_in_operand_slot_programs'] = len(ls)
     chk.notes['programs'] = len(progs)
     chunk = 20000
     agg = {'done': 0, 'fail': 0, 'reject': 0}
